@@ -339,7 +339,7 @@ func (a *Async) step() {
 		w.Clock = w.Clock.Add(d)
 		w.act("tick %s", d)
 	case aNewTx:
-		tx := w.NewTx(false)
+		tx := w.NewTx(a.pct("poisonpool", 8)) // now and then the pools hold a transaction no block may contain
 		live := w.Live()
 		mask := a.r("txmask", 1<<uint(min(len(live), 8)))
 		w.act("newTx %x mask=%b", uint64(tx), mask)
@@ -728,7 +728,11 @@ func (a *Async) fabricate(j, idx int, h uint32, v byte, t *Node, allowRecovery b
 		if a.pct("tsnow", 50) {
 			ts = uint64(t.Now().UnixNano())
 		}
-		p := mk(dbft.PrepareRequestType, v, &vt.PrepareRequest{Ts: ts, N: uint64(a.r("nonce", 4)), Hashes: hs})
+		nonce := uint64(a.r("nonce", 4))
+		if a.pct("policybad", 15) {
+			nonce += 0xBAD0 // a proposal the applications' policy check (VerifyPrepareRequest) rejects
+		}
+		p := mk(dbft.PrepareRequestType, v, &vt.PrepareRequest{Ts: ts, N: nonce, Hashes: hs})
 		w.Proposals = append(w.Proposals, p)
 		return p
 	case 1: // response naming a known or an unknown proposal
